@@ -274,7 +274,7 @@ def c06_4(ctx: Ctx):
               "split_block: func_uuid is the function of the head", f"func_uuid = {src(fu) if fu else '?'}")
 
 
-@rule("C06.5", ["C06"], "a function that lost its last block disappears from exactly functionBlocks/functionEntries/functionNames", 6)
+@rule("C06.5", ["C06", "C09"], "a function that lost its last block disappears from exactly functionBlocks/functionEntries/functionNames", 6)
 def c06_5(ctx: Ctx):
     repo = ctx.repo
     fi = repo.func("_modify.functions.remove_function_block_aux")
